@@ -621,7 +621,7 @@ namespace vf
             g.cols = static_cast<std::size_t>(rng.range(2, static_cast<long>(o.max_profile)));
             if (rng.chance(0.3))
                 g.cols = static_cast<std::size_t>(rng.range(2, 6));
-            g.dx = rng.chance(0.5) ? 1.0 : rng.logu(0.01, 500.0);
+            g.dx = rng.chance(0.5) ? 1.0 : (rng.chance(0.15) ? rng.logu(1e-4, 1e4) : rng.logu(0.01, 500.0));
             NS l = rand_border(rng, o.allow_looped), r = rand_border(rng, o.allow_looped);
             if (l == NS::looped || r == NS::looped)
                 l = r = NS::looped;
@@ -654,8 +654,10 @@ namespace vf
             }
             else
             {
-                g.dy = rng.logu(0.05, 50.0);
-                g.dx = rng.chance(0.3) ? g.dy : rng.logu(0.05, 50.0);
+                // mostly moderate spacings, sometimes very small / very large ones (units are the user's)
+                const bool extreme = rng.chance(0.15);
+                g.dy = extreme ? rng.logu(1e-4, 1e4) : rng.logu(0.05, 50.0);
+                g.dx = rng.chance(0.3) ? g.dy : (extreme ? rng.logu(1e-4, 1e4) : rng.logu(0.05, 50.0));
             }
             NS l = rand_border(rng, o.allow_looped), r = rand_border(rng, o.allow_looped);
             NS t = rand_border(rng, o.allow_looped), b = rand_border(rng, o.allow_looped);
